@@ -135,7 +135,8 @@ def copy_res(r):
 # ------------------------------------------------------------------ one configuration, all aspects
 def case_tables(prog, cfg):
     """C08: survival / outflow-probability tables against the documented formula, and their validity identities"""
-    sw = SW(prog, cfg["n_t"], cfg["labels"])
+    sw = SW(prog, cfg["n_t"], cfg["labels"], grid=cfg.get("grid"))
+    sw.prm_values = cfg.get("prm_values")
     sw.layout = cfg.get("layout")
     dist = cfg["dist"]
     case = SCase("tables", f"{dist}._survival_by_year_id", cfg_desc(cfg))
@@ -202,7 +203,8 @@ def inflow_driven(sw, dist, cfg, drv="in"):
 
 
 def case_inflow_driven(prog, cfg):
-    sw = SW(prog, cfg["n_t"], cfg["labels"])
+    sw = SW(prog, cfg["n_t"], cfg["labels"], grid=cfg.get("grid"))
+    sw.prm_values = cfg.get("prm_values")
     sw.layout = cfg.get("layout")
     dist = cfg["dist"]
     case = SCase("inflow-driven", "InflowDrivenDSM.compute", cfg_desc(cfg))
@@ -233,7 +235,9 @@ def case_inflow_driven(prog, cfg):
                 ok, msg = False, f"stock{[t, *l]} is not the sum over cohorts of inflow rate x interval length x survival share"
     case.v("impulse", ok, msg, "InflowDrivenDSM._compute_stock")
     # calendar shift
-    sw2 = SW(prog, cfg["n_t"], cfg["labels"], shift=Rat.sym("shift"))
+    sw2 = SW(prog, cfg["n_t"], cfg["labels"], shift=Rat.sym("shift"), grid=cfg.get("grid"))
+    sw2.prm_values = cfg.get("prm_values")
+    sw2.layout = cfg.get("layout")
     kind, r2 = run_guarded(lambda: inflow_driven(sw2, dist, cfg))
     if kind == "ok":
         res2 = results(r2[0])
@@ -326,7 +330,8 @@ def judge_cohorts(case, sw, st, lm, cls_name):
 
 def case_stock_driven(prog, cfg):
     """C10 (+C03/C09/C16 for the stock-driven model)"""
-    sw = SW(prog, cfg["n_t"], cfg["labels"])
+    sw = SW(prog, cfg["n_t"], cfg["labels"], grid=cfg.get("grid"))
+    sw.prm_values = cfg.get("prm_values")
     sw.layout = cfg.get("layout")
     dist = cfg["dist"]
     case = SCase("stock-driven", "StockDrivenDSM.compute", cfg_desc(cfg))
@@ -403,7 +408,8 @@ def case_stock_driven(prog, cfg):
 
 def case_zero_roundtrip(prog, cfg):
     """C10 at the zero driver: the round trip must return zero flows AND the (zero) cohort tables, like for any other driver"""
-    sw = SW(prog, cfg["n_t"], cfg["labels"])
+    sw = SW(prog, cfg["n_t"], cfg["labels"], grid=cfg.get("grid"))
+    sw.prm_values = cfg.get("prm_values")
     sw.layout = cfg.get("layout")
     dist = cfg["dist"]
     case = SCase("zero-roundtrip", "StockDrivenDSM.compute", dict(cfg_desc(cfg), driver="identically zero"))
@@ -436,7 +442,8 @@ def case_zero_roundtrip(prog, cfg):
 def case_failed_compute(prog, cfg):
     """C13 on stocks: a compute() that raises (here: scipy refusing a NaN in a later label's prescribed stock) leaves every array of
     the stock as it was.  Whether compute() raises at all is not demanded (the manual solver propagates the NaN)."""
-    sw = SW(prog, cfg["n_t"], cfg["labels"])
+    sw = SW(prog, cfg["n_t"], cfg["labels"], grid=cfg.get("grid"))
+    sw.prm_values = cfg.get("prm_values")
     sw.layout = cfg.get("layout")
     dist, solver = cfg["dist"], cfg["solver"]
     case = SCase("failed-compute", "StockDrivenDSM.compute", dict(cfg_desc(cfg), solver=solver,
@@ -478,7 +485,8 @@ def case_failed_compute(prog, cfg):
 
 
 def case_simple(prog, cfg):
-    sw = SW(prog, cfg["n_t"], cfg["labels"])
+    sw = SW(prog, cfg["n_t"], cfg["labels"], grid=cfg.get("grid"))
+    sw.prm_values = cfg.get("prm_values")
     sw.layout = cfg.get("layout")
     case = SCase("flow-driven", "SimpleFlowDrivenStock.compute", cfg_desc(cfg))
 
@@ -511,7 +519,8 @@ STEPS = {
 def case_history(prog, cfg, cls_name, hist):
     """run a history of steps on ONE stock object; after every successful compute() all results must equal those of a
     freshly built object holding the same driver and parameters"""
-    sw = SW(prog, cfg["n_t"], cfg["labels"])
+    sw = SW(prog, cfg["n_t"], cfg["labels"], grid=cfg.get("grid"))
+    sw.prm_values = cfg.get("prm_values")
     sw.layout = cfg.get("layout")
     dist = cfg["dist"]
     qual = f"{cls_name}.compute"
@@ -535,7 +544,7 @@ def case_history(prog, cfg, cls_name, hist):
                     prms[nm] = base + eps
             sw.it.call_method(lm, "set_prms", **prms)
         elif dsm:
-            lm, _, _ = make_lifetime(sw, dist, cfg["over"], version=version, inflow_at=cfg["inflow_at"], n_pts=cfg["n_pts"])
+            lm, _, _ = make_lifetime(sw, dist, cfg.get("over2", cfg["over"]) if version == "B" else cfg["over"], version=version, inflow_at=cfg["inflow_at"], n_pts=cfg["n_pts"])
         arrays = {drv_name: driver.copy()}
         if not dsm:
             arrays["outflow"] = sw.driver("out")
@@ -549,7 +558,7 @@ def case_history(prog, cfg, cls_name, hist):
     def start():
         lm = None
         if dsm:
-            lm, _, _ = make_lifetime(sw, dist, cfg["over"], version="A", inflow_at=cfg["inflow_at"], n_pts=cfg["n_pts"], set_params=not unset)
+            lm, _, _ = make_lifetime(sw, dist, cfg["over"], version="A", via=cfg.get("via", "set_prms"), inflow_at=cfg["inflow_at"], n_pts=cfg["n_pts"], set_params=not unset)
         arrays = {drv_name: d1.copy()}
         if not dsm:
             arrays["outflow"] = sw.driver("out")
@@ -579,7 +588,8 @@ def case_history(prog, cfg, cls_name, hist):
                     else:
                         prms[nm] = base + eps
                     continue
-                prms[nm], _ = sw.param(nm, cfg["over"], v, sign=("neg" if (step == "N" and nm in ("mean", "weibull_shape")) else "pos"))
+                prms[nm], _ = sw.param(nm, cfg.get("over2", cfg["over"]) if step == "P" else cfg["over"], v,
+                                       sign=("neg" if (step == "N" and nm in ("mean", "weibull_shape")) else "pos"))
             kind, r = run_guarded(lambda: sw.it.call_method(lm, "set_prms", **prms))
             if kind != "ok":
                 case.v("recompute", False, f"step {i} set_prms ended with {kind}: {r}", f"{dist}.set_prms")
@@ -654,6 +664,12 @@ def table_configs(tier):
                         vias += ("attributes",)
                     for via in vias:
                         out.append(dict(n_t=n_t, labels=labels, dist=dist, over=over, n_pts=n_pts, inflow_at=ia, via=via))
+    # an equidistant grid (x0, x0+h, ...): shortcuts for "all intervals equally long" are taken there and only there
+    for dist in DISTS:
+        for labels in ((), ("a",)):
+            for over in ["number", "time", "all"] + (["labels"] if labels else []):
+                for via in ("set_prms", "__init__"):
+                    out.append(dict(n_t=3, labels=labels, dist=dist, over=over, n_pts=1, inflow_at="middle", via=via, grid="equidistant"))
     return out
 
 
@@ -674,6 +690,9 @@ def dsm_configs(tier):
                     continue
                 for n_pts, ia in ([(1, "middle")] if tier == "quick" or n_t > 3 else [(1, "middle"), (1, "start"), (2, "middle")]):
                     out.append(dict(n_t=n_t, labels=labels, dist=dist, over=over, n_pts=n_pts, inflow_at=ia))
+    for dist in (DISTS if tier == "thorough" else ("NormalLifetime", "FixedLifetime")):
+        for over in ("all", "time"):
+            out.append(dict(n_t=3, labels=("a",), dist=dist, over=over, n_pts=1, inflow_at="middle", grid="equidistant"))
     return out
 
 
